@@ -302,6 +302,7 @@ def run(ctx):
     ctx.floor("judged:expression", ctx.pick(200, 5000))
     ctx.floor("judged:get_data", ctx.pick(200, 5000))
     ctx.floor("judged:histogram", ctx.pick(30, 1000))
+    ctx.floor("lazy_selection_operands", ctx.pick(20, 400))       # the un-decoded / lazy-view variants must actually have run
 
 
 def opclass(tree):
